@@ -934,38 +934,30 @@ func TestCheck(t *testing.T) {
 	}
 	fmt.Printf("scripts: %d with <=1 op (all replayed), %d with 2 ops, %d selected in total\n", len(s1), two, len(scripts))
 
-	// 3. replay on real documents, one operation at a time (see C08 for concurrent streams)
+	// 3. replay on real documents, one operation at a time (see C08 for concurrent streams); every mutated document is
+	// built, decrypted and dropped before the next one
 	var runs []run
-	var hons []*honest
-	for i, s := range scripts {
-		for ci, cph := range []string{cipherAES, cipherCC} {
-			h := mkHonest(cph, shapeLen(s.NA, s.LastFull), "shape")
-			runs = append(runs, apply(h, s, rng, i+ci))
-			hons = append(hons, h)
-		}
-	}
-	nScriptRuns := len(runs)
-	sr, sh := sweeps(thorough, rng)
-	runs = append(runs, sr...)
-	hons = append(hons, sh...)
-	// harness sanity: every honest document decrypts, unmodified
-	for _, h := range honestCache {
-		cb := &tv.Batch{}
-		if o := execute(cb, h, run{Class: "control", Doc: h.doc, Script: encref.NoErr(), CBuf: 4096}); o.term != "eof" || !o.equal {
-			e.Inconclusive(fmt.Sprintf("control: an unmodified %d-byte %s document does not decrypt (term=%s) - see C01", len(h.plain), h.cipher, o.term))
-			return
-		}
-	}
 	mb := &batches{}
 	drift := 0
 	var driftSamples []any
 	classes := map[string]int{}
+	controlled := map[*honest]bool{}
 	start := time.Now()
-	for i, r := range runs {
-		o := execute(mb.cur(), hons[i], r)
-		mb.note(i)
+	doRun := func(h *honest, r run) bool {
+		if !controlled[h] {
+			// harness sanity: the honest document decrypts, unmodified
+			controlled[h] = true
+			cb := &tv.Batch{}
+			if o := execute(cb, h, run{Class: "control", Doc: h.doc, Script: encref.NoErr(), CBuf: 4096}); o.term != "eof" || !o.equal {
+				e.Inconclusive(fmt.Sprintf("control: an unmodified %d-byte %s document does not decrypt (term=%s) - see C01", len(h.plain), h.cipher, o.term))
+				return false
+			}
+		}
+		o := execute(mb.cur(), h, r)
+		mb.note(len(runs))
 		classes[strings.SplitN(r.Class, ":", 2)[0]]++
 		e.Nontrivial(r.Cipher + "|" + r.Desc + "|" + r.Class)
+		r.Doc = nil
 		if r.Pred != nil {
 			want := []string{"eof", "err", "decrypt-err"}[r.Pred[1]]
 			sameTerm := o.term == want
@@ -974,14 +966,31 @@ func TestCheck(t *testing.T) {
 				// (depends on the reader's chunking, which the symbolic model abstracts): both are "an error"
 				sameTerm = true
 			}
-			if !sameTerm || o.released != predReleasedBytes(hons[i], r.Pred[0]) {
+			if !sameTerm || o.released != predReleasedBytes(h, r.Pred[0]) {
 				drift++
 				if len(driftSamples) < 5 {
 					driftSamples = append(driftSamples, tv.M{"run": r, "model": tv.M{"term": want, "releasedSegments": r.Pred[0]}, "real": tv.M{"term": o.term, "released": o.released}})
 				}
 			}
 		}
-		runs[i].Doc = nil
+		runs = append(runs, r)
+		return true
+	}
+	for i, s := range scripts {
+		for ci, cph := range []string{cipherAES, cipherCC} {
+			h := mkHonest(cph, shapeLen(s.NA, s.LastFull), "shape")
+			if !doRun(h, apply(h, s, rng, i+ci)) {
+				return
+			}
+		}
+	}
+	nScriptRuns := len(runs)
+	sr, sh := sweeps(thorough, rng)
+	for i := range sr {
+		if !doRun(sh[i], sr[i]) {
+			return
+		}
+		sr[i].Doc = nil
 	}
 	fmt.Printf("replayed %d runs of the real Decrypt (%d from model scripts, %d from byte-level sweeps) in %s; model/real outcome disagreements (drift): %d\n",
 		len(runs), nScriptRuns, len(runs)-nScriptRuns, time.Since(start).Round(time.Millisecond), drift)
